@@ -91,3 +91,23 @@ reg("C01", "exploration",
     "Two oracles over generated programs. relcheck: for generated x86-64 and AArch64 assembly programs the psABI value (S, A, P, TP recomputed from the INPUT relocation tables, wild's .layout placement and the output symbol table) of every modelled relocation site (absolute 8/16/32/32S/64, PC-relative, PLT/CALL26/JUMP26 followed through thunks, CONDBR19/TSTBR14, ADRP/ADD/LDST lo12, MOVW, TLS LE) is compared with the field decoded from the output. Execution: proggen multi-object C/C++/asm programs (calls, data and function pointers, TLS in every model incl. TLSDESC, ifunc, weak/common/hidden/protected, copy relocations, shared library) are linked by wild in each output kind their code model allows, run, and their self-describing transcript must equal that of the same objects linked by GNU ld.",
     "Relocation kinds relcheck does not model and relaxed instructions are counted as unobserved; AArch64 cannot be executed here; links wild rejects are outside the property's quantifier and counted.",
     "runtime monitors: static psABI recomputation over outputs + differential execution against GNU ld")
+reg("C02", "exploration",
+    "Generated sets of objects, archive members and shared libraries defining/declaring the same names with random strength (strong, weak, common with sizes, GNU-unique), visibility and kind in random command-line order; the running program reports which definition each file's view binds to; an executable model of the statement's rules, first confirmed on GNU ld (and lld), decides; accept/reject (duplicate strong, undefined non-weak) is compared too; wild is run single-threaded and with 16 threads under schedule perturbation.",
+    "Cases where GNU ld deviates from the model are inconclusive; references undefined only from a shared library are excluded.",
+    "runtime differential monitor: self-reporting programs vs a resolution model calibrated on GNU ld/lld")
+reg("C03", "exploration",
+    "Random archive reference graphs (regular, thin and --start-lib archives, whole-archive regions, weak references, cycles, duplicate-only members) are linked in every rotation of the archive positions under three (quick) to six (thorough) schedules; the loaded member set is observed three ways (constructor ids printed at run time, members listed in .layout, FILE_TAKE hook events: none twice, same count across schedules) and must equal a fixpoint model calibrated on ld.lld for every rotation and on GNU ld with --start-group.",
+    "Names defined both in archives and in plain objects are avoided (order-sensitive in lld itself).",
+    "runtime monitor: member-set observation (run time, layout file, hook events) vs fixpoint model, under schedule perturbation")
+reg("C30", "exploration",
+    "2-10 units with constructors/destructors of every flavour (attribute priorities, hand-written .init_array[.N]/.fini_array[.N]/.ctors[.N]/.dtors[.N]/.preinit_array at alignment 8 or 1, archives) in two command-line orders and five output kinds; the run-time order transcript and the arrays decoded to symbol names must equal GNU ld's; mismatches are classified by the discordant pair and a causal probe.",
+    "GNU ld 2.40 is the arbiter.",
+    "runtime differential monitor: constructor order at run time and in the output arrays vs GNU ld")
+reg("C33", "exploration",
+    "Generated programs with 1-3 wrapped functions or data symbols defined in objects, archive members or shared libraries and referenced from everywhere, with and without __wrap_S/__real_S, weak references, and -r --wrap partial links; each function prints a unique id and the transcript must equal GNU ld's and the statement's model.",
+    "GNU ld 2.40 is the arbiter; its loaded members are read from its -Map file.",
+    "runtime differential monitor: --wrap binding transcript vs GNU ld and a model")
+reg("C38", "exploration",
+    "Self-checking programs share data, bss, weak aliases, functions, ifuncs and TLS between an executable and 1-3 libraries in both directions (non-PIE with copy relocations and canonical PLT, PIE, -z nocopyreloc); every module reports the address it sees, initial value, store visibility and calls through pointers; all views must agree; the wild link is the executable or one of the libraries; calibrated on GNU ld.",
+    "Cases GNU ld itself fails are inconclusive.",
+    "runtime self-checking execution across modules, calibrated on GNU ld")
